@@ -52,30 +52,30 @@ let run (op_full : string) (a : string array) : string =
       show_res (show_opt (fun l -> "[" ^ String.concat "|" (List.map hex l) ^ "]")) (array_values_w (unhex a.(0)))
   | "type_of" ->
       show_res (fun n -> "=" ^ (match int_of_n n with 0 -> "null" | 1 -> "boolean" | 2 -> "number" | 3 -> "string" | 4 -> "array" | _ -> "object"))
-        (type_of_m (unhex a.(0)))
-  | "is_null" | "as_null" -> show_res show_bool (as_null_m (unhex a.(0)))
-  | "is_boolean" -> show_res (fun o -> show_bool (o <> None)) (as_bool_m (unhex a.(0)))
-  | "as_bool" -> show_res (show_opt show_bool) (as_bool_m (unhex a.(0)))
-  | "to_bool" -> show_res show_bool (to_bool_m (unhex a.(0)))
-  | "is_number" -> show_res (fun o -> show_bool (o <> None)) (as_number_m (unhex a.(0)))
-  | "as_number" -> show_res (show_opt (fun x -> "=" ^ show_num x)) (as_number_m (unhex a.(0)))
-  | "is_i64" -> show_res (fun o -> show_bool (o <> None)) (as_i64_m (unhex a.(0)))
-  | "as_i64" -> show_res (show_opt (fun z -> "=" ^ ZA.to_string (zt_of_z z))) (as_i64_m (unhex a.(0)))
-  | "to_i64" -> show_res (fun z -> "=" ^ ZA.to_string (zt_of_z z)) (to_i64_m (unhex a.(0)))
-  | "is_u64" -> show_res (fun o -> show_bool (o <> None)) (as_u64_m (unhex a.(0)))
-  | "as_u64" -> show_res (show_opt (fun n -> "=" ^ ZA.to_string (zt_of_n n))) (as_u64_m (unhex a.(0)))
-  | "to_u64" -> show_res (fun n -> "=" ^ ZA.to_string (zt_of_n n)) (to_u64_m (unhex a.(0)))
-  | "is_f64" -> show_res (fun o -> show_bool (o <> None)) (as_f64_m (unhex a.(0)))
-  | "as_f64" -> show_res (show_opt (fun n -> "=" ^ ZA.format "%016x" (zt_of_n n))) (as_f64_m (unhex a.(0)))
-  | "to_f64" -> show_res (fun n -> "=" ^ ZA.format "%016x" (zt_of_n n)) (to_f64_m (unhex a.(0)))
-  | "is_string" -> show_res (fun o -> show_bool (o <> None)) (as_str_m (unhex a.(0)))
-  | "as_str" -> show_res (show_opt hex) (as_str_m (unhex a.(0)))
-  | "to_str" -> show_res hex (to_str_m (unhex a.(0)))
-  | "is_array" -> show_res show_bool (is_array_m (unhex a.(0)))
-  | "is_object" -> show_res show_bool (is_object_m (unhex a.(0)))
+        (type_of_w (unhex a.(0)))
+  | "is_null" | "as_null" -> show_res show_bool (as_null_w (unhex a.(0)))
+  | "is_boolean" -> show_res (fun o -> show_bool (o <> None)) (as_bool_w (unhex a.(0)))
+  | "as_bool" -> show_res (show_opt show_bool) (as_bool_w (unhex a.(0)))
+  | "to_bool" -> show_res show_bool (to_bool_w (unhex a.(0)))
+  | "is_number" -> show_res (fun o -> show_bool (o <> None)) (as_number_w (unhex a.(0)))
+  | "as_number" -> show_res (show_opt (fun x -> "=" ^ show_num x)) (as_number_w (unhex a.(0)))
+  | "is_i64" -> show_res (fun o -> show_bool (o <> None)) (as_i64_w (unhex a.(0)))
+  | "as_i64" -> show_res (show_opt (fun z -> "=" ^ ZA.to_string (zt_of_z z))) (as_i64_w (unhex a.(0)))
+  | "to_i64" -> show_res (fun z -> "=" ^ ZA.to_string (zt_of_z z)) (to_i64_w (unhex a.(0)))
+  | "is_u64" -> show_res (fun o -> show_bool (o <> None)) (as_u64_w (unhex a.(0)))
+  | "as_u64" -> show_res (show_opt (fun n -> "=" ^ ZA.to_string (zt_of_n n))) (as_u64_w (unhex a.(0)))
+  | "to_u64" -> show_res (fun n -> "=" ^ ZA.to_string (zt_of_n n)) (to_u64_w (unhex a.(0)))
+  | "is_f64" -> show_res (fun o -> show_bool (o <> None)) (as_f64_w (unhex a.(0)))
+  | "as_f64" -> show_res (show_opt (fun n -> "=" ^ ZA.format "%016x" (zt_of_n n))) (as_f64_w (unhex a.(0)))
+  | "to_f64" -> show_res (fun n -> "=" ^ ZA.format "%016x" (zt_of_n n)) (to_f64_w (unhex a.(0)))
+  | "is_string" -> show_res (fun o -> show_bool (o <> None)) (as_str_w (unhex a.(0)))
+  | "as_str" -> show_res (show_opt hex) (as_str_w (unhex a.(0)))
+  | "to_str" -> show_res hex (to_str_w (unhex a.(0)))
+  | "is_array" -> show_res show_bool (is_array_w (unhex a.(0)))
+  | "is_object" -> show_res show_bool (is_object_w (unhex a.(0)))
   | "exists_all_keys" -> show_res show_bool (exists_all_keys_m (unhex a.(0)) (hexlist a.(1)))
   | "exists_any_keys" -> show_res show_bool (exists_any_keys_m (unhex a.(0)) (hexlist a.(1)))
-  | "traverse_check_string" -> show_res show_bool (traverse_check_string_m (unhex a.(0)) (unhex a.(1)))
+  | "traverse_check_string" -> show_res show_bool (traverse_check_string_w (unhex a.(0)) (unhex a.(1)))
   | "contains" -> show_res show_bool (contains_m (unhex a.(0)) (unhex a.(1)))
   | "array_distinct" -> show_buf prefix (array_distinct_m (unhex a.(0)) prefix)
   | "array_intersection" -> show_buf prefix (array_intersection_m (unhex a.(0)) (unhex a.(1)) prefix)
